@@ -14,6 +14,19 @@ import (
 
 // judge applies the monitor of one property to an executed case.
 func judge(prop string, c *Case, res *Result) (fs []Finding, knownDeep int) {
+	if c.Glyphless {
+		// totality only, and only under C02
+		if prop != "C02" {
+			return nil, 0
+		}
+		if res.Panic != nil {
+			return []Finding{{"C02/panic/" + vrun.TopFrame(res.Where), fmt.Sprintf("wrapping a paragraph holding a run without glyphs panicked: %v at %s", res.Panic, res.Where)}}, 0
+		}
+		if res.Aborted {
+			return []Finding{{"C02/non-termination", "wrapping a paragraph holding a run without glyphs does not terminate (logical step bound)"}}, 0
+		}
+		return nil, 0
+	}
 	switch prop {
 	case "C02":
 		return JudgeC02(c, res), 0
@@ -174,6 +187,25 @@ func Main(prop string) {
 				ml = 24
 			}
 			guarded(worker, RandomCase(r, ml))
+		}
+	})
+
+	// (2a) paragraphs where one run lost all its glyphs: totality only
+	nGl := run.Pick(30000, 300000)
+	vrun.ParallelChunks(nGl, 0, func(lo, hi, worker int) {
+		for i := lo; i < hi; i++ {
+			r := gen.New(run.Seed, "wrap/glyphless", i)
+			c := RandomCase(r, 8)
+			if c == nil || len(c.Runs) == 0 {
+				continue
+			}
+			c.Runs[r.Intn(len(c.Runs))].Glyphs = nil
+			if r.Chance(1, 4) {
+				c.Runs[r.Intn(len(c.Runs))].Glyphs = nil
+			}
+			c.Glyphless = true
+			c.Origin = "synthetic-glyphless-run"
+			guarded(worker, c)
 		}
 	})
 
